@@ -60,8 +60,16 @@ RawField(c, name) ==
 
 \* reading_by_candle(candle, name) for a plain name: attribute, then indicators, then
 \* sub_indicators (first place that has the key wins); absent reads as None
+\* the candle's own shape properties are readable by name like its fields (Candle.realbody, ...)
+PropFields == {"realbody", "shadow_upper", "shadow_lower", "high_low", "positive", "negative"}
+PropField(c, name) ==
+  CASE name = "realbody" -> QV(RealBody(c)) [] name = "shadow_upper" -> QV(ShadowUpper(c))
+    [] name = "shadow_lower" -> QV(ShadowLower(c)) [] name = "high_low" -> QV(HighLow(c))
+    [] name = "positive" -> BoolV(Positive(c)) [] name = "negative" -> BoolV(Negative(c))
+
 Get(c, name) ==
   IF name \in RawFields THEN QV(RawField(c, name))
+  ELSE IF name \in PropFields THEN PropField(c, name)
   ELSE IF KVHas(c.ind, name) THEN KVGet(c.ind, name)
   ELSE IF KVHas(c.sub, name) THEN KVGet(c.sub, name)
   ELSE NoneV
